@@ -110,6 +110,12 @@ pub fn new(parameters: &RawParameters, _ctx: &dyn Context) -> Result<Op, Error> 
     let def = &parameters.definition;
     let mut params = ParsedParameters::new(parameters, &GAMUT)?;
 
+    // The context supplies a default 'ellps', which `ellps(0)` prefers over 'ellps_0':
+    // an 'ellps_0' given for this step must win over that default
+    if params.given.contains_key("ellps_0") && !params.given.contains_key("ellps") {
+        let source = params.text("ellps_0")?;
+        params.text.insert("ellps", source);
+    }
     let ellps_0 = params.ellps(0);
     let ellps_1 = params.ellps(1);
 
